@@ -4,21 +4,32 @@ Clauses decided (each a necessary condition of "placed on the first surviving ta
 R1 order preservation: every concrete `BindingFilter.get_targets` (enumerated through the class table;
    declared shufflers excepted) returns an order-preserving construction over its `targets` parameter --
    no set/frozenset, no sort on another key, no reversal, no `random.*`, no accumulation that is not
-   target-major.  (S1: `MatchingBindingFilter.get_targets` collects into a `set` -- fires today.)
+   target-major (an accumulation under an outer loop over anything but the targets, e.g. rule-major with a
+   de-duplicating guard, keeps the same *set* but orders it by rule: seeded change 2).  (S1, the `set`
+   accumulator of `MatchingBindingFilter.get_targets`, was repaired in /repo; kept as a self-test variant.)
 R2 `DefaultScheduler.schedule`: the target list starts as the complete declared list, every filter of
    `binding_config.filters` is applied, in declared order, each on the result of the previous one (the
-   result is neither dropped nor recomputed from the unfiltered list), and one `_process_target` task per
+   result is neither dropped nor recomputed from the unfiltered list; no iteration of the filter loop can end
+   -- break, continue, conditional -- without applying its filter: a filter is a gate, not only a chooser,
+   seeded change 3), and one `_process_target` task per
    surviving target is created by ordered, complete iteration over the final list with that target.
 R3 matching semantics: `MatchingRule.eval` can return a true value exactly when the deployment matched and
    (the rule has no service or the service matched) -- guard truth table folded on the CFG --, only after
    the predicate loop is exhausted, every iteration compares `match` with `str(job.inputs[port].value)`
    and a mismatch leaves without reaching a true return; `MatchingBindingFilter.get_targets` keeps a target
-   iff `any` rule evaluates true for *that* target's deployment name and service; an empty result raises.
+   iff `any` rule evaluates true for *that* target's deployment name and service (the guard of the accumulation
+   folds to the rule evaluation; `<target> not in <accumulator>` is a recognised de-duplication conjunct; any other
+   conjunct/disjunct the rule cannot evaluate is reported as keep/drop depending on something else than the
+   rules, not refused); an empty result raises.
 R4 `DefaultScheduler._process_target`: acquiring `self.wait_queue` is the first suspension point (FIFO lock
    acquisition is what turns task-creation order into target priority); `_allocate_job` is guarded by the
    `job_context.scheduled` test and followed by `scheduled = True` before any suspension (one placement).
 R5 `get_binding_config` builds `BindingConfig.targets` / `.filters` by ordered, complete iteration over the
    declared `config["targets"]` / `config.get("filters")`.
+
+Analysis errors are deferred (`_part` / `_settle`): a rule part that cannot interpret a changed shape does not
+mask the violation another part reports for the same change; without any new violation the first deferred
+error is raised after the last rule (exit 2, never a silent pass).
 """
 
 from __future__ import annotations
@@ -26,7 +37,8 @@ from __future__ import annotations
 import ast
 
 from ..dataflow import defs_of, origins
-from ..model import dotted, unparse, walk_no_nested
+from ..model import AnalysisError, dotted, unparse, walk_no_nested
+from ..report import split_known
 from ..selftest import V
 from ._util_F import (
     BAD,
@@ -79,6 +91,43 @@ META = {
 
 def _norm(node: ast.AST) -> str:
     return " ".join(unparse(node).split())[:90]
+
+
+# ---- deferred analysis errors ------------------------------------------------------------------
+# A rule part that cannot interpret a (changed) shape must not mask the violation another part reports
+# for the same change (seeded change 2: the rule-major rewrite of the matching filter is an R1 order
+# violation, but R3 could not fold its new guard and the whole check ended with exit 2).  Every rule part
+# therefore runs under `_part`: an AnalysisError is kept aside; after the last rule it is raised (exit 2)
+# when no *new* violation is reported, and downgraded to an observation otherwise.
+
+
+def _part(ctx, rid: str, fn) -> None:
+    try:
+        fn(ctx)
+    except AnalysisError as e:
+        ctx.__dict__.setdefault("_c13_deferred", []).append((rid, e))
+
+
+def _settle(ctx) -> None:
+    deferred = ctx.__dict__.pop("_c13_deferred", [])
+    if not deferred:
+        return
+    _, new = split_known(ctx.findings)
+    if not new:
+        raise deferred[0][1]
+    for rid, e in deferred:
+        ctx.observe(f"C13.{rid}: part of the rule could not interpret the analysed shape (not deciding while violations are reported): {e}")
+
+
+def _rule(rid: str, fn, last: bool = False):
+    def run(ctx):
+        _part(ctx, rid, fn)
+        if last:
+            _settle(ctx)
+
+    run.__name__ = fn.__name__
+    run.__doc__ = fn.__doc__
+    return run
 
 
 # =========================================================================== R1
@@ -497,11 +546,40 @@ def _r3_filter(ctx):
             tn = g.node_containing(atom_node)
             ctx.require(len(tn) == 1 and g.nodes[tn[0]].kind == "test", "C13.R3: the rule evaluation is not the guard of a branch")
             t = tn[0]
-            v = fold3(g.nodes[t].ast, lambda e: True if e is atom_node else None)
-            ctx.require(v is not None, f"C13.R3: cannot fold guard `{_norm(g.nodes[t].ast)}`")
             acc = [n.id for n in g.nodes.values() if any(
                 isinstance(x.func, ast.Attribute) and x.func.attr in ("append", "add") and len(x.args) == 1
                 and isinstance(x.args[0], ast.Name) and x.args[0].id == tv for x in n.calls())]
+            accs = {x.func.value.id for a in acc for x in g.nodes[a].calls()
+                    if isinstance(x.func, ast.Attribute) and x.func.attr in ("append", "add") and isinstance(x.func.value, ast.Name)}
+
+            def guard_atom(e, val):
+                # the rule evaluation, and the de-duplication test `<target> not in <accumulator>` (evaluated for a
+                # target that was not kept yet: it does not change which targets are kept, only how often)
+                if e is atom_node:
+                    return val
+                cp = compare_pair(e)
+                if (cp is not None and isinstance(cp[1], (ast.In, ast.NotIn)) and isinstance(cp[0], ast.Name) and cp[0].id == tv
+                        and isinstance(cp[2], ast.Name) and cp[2].id in accs):
+                    return isinstance(cp[1], ast.NotIn)
+                return None
+
+            v = fold3(g.nodes[t].ast, lambda e: guard_atom(e, True))
+            v_not = fold3(g.nodes[t].ast, lambda e: guard_atom(e, False))
+            if v is None or v_not is None or v == v_not:
+                # the guard mixes the rule evaluation with a condition this rule cannot evaluate (or does not depend on
+                # the rule evaluation at all): whether a target is kept is no longer decided by "a rule matched" alone.
+                # Reported as the violated obligation, not refused.
+                gtxt = _norm(g.nodes[t].ast)
+                const_adds = v is not None and v == v_not and bool(
+                    set(acc) & g.reach(edge_succ(g, t, "t" if v else "f"), avoid=[t], include_src=True))
+                if v is None or (v == v_not and not const_adds):
+                    ctx.ob("R3", "a matching target is added to the result", False, func=f, node=g.nodes[t].ast, instance="filter:keep",
+                           message=f"MatchingBindingFilter.get_targets: whether a target with a matching rule is kept depends on `{gtxt}`, not on the rule evaluation alone")
+                if (v_not is None and v is not None) or const_adds:
+                    ctx.ob("R3", "a target without a matching rule is not added", False, func=f, node=g.nodes[t].ast, instance="filter:drop",
+                           message=f"MatchingBindingFilter.get_targets: a target without a matching rule can be kept, depending on `{gtxt}`")
+                _emptiness(ctx, f, g, accs)
+                continue
             ctx.ob("R3", "a matching target is added to the result", bool(acc) and bool(set(acc) & g.reach(edge_succ(g, t, "t" if v else "f"), avoid=[t], include_src=True)),
                    func=f, node=g.nodes[t].ast, instance="filter:keep", message=keep_msg)
             heads = [i for lp in all_loops for i in g.ids_of(lp)]
@@ -553,8 +631,8 @@ def _emptiness(ctx, f, g, coll: set[str]):
 
 
 def r3(ctx):
-    _r3_eval(ctx)
-    _r3_filter(ctx)
+    _part(ctx, "R3", _r3_eval)
+    _part(ctx, "R3", _r3_filter)
 
 
 # =========================================================================== R4
@@ -636,10 +714,15 @@ def r5(ctx):
     ctx.require(n_decl >= 2, "C13.R5: BindingConfig is no longer built from config['targets'] / config.get('filters')")
 
 
-RULES = [("R1", r1), ("R2", r2), ("R3", r3), ("R4", r4), ("R5", r5)]
+_RULE_FNS = [("R1", r1), ("R2", r2), ("R3", r3), ("R4", r4), ("R5", r5)]
+RULES = [(rid, _rule(rid, fn, last=i == len(_RULE_FNS) - 1)) for i, (rid, fn) in enumerate(_RULE_FNS)]
 FLOORS = {"R1": 2, "R2": 8, "R3": 13, "R4": 3, "R5": 3}
 
 _TASKS = "for target in targets]"
+_EVAL = "matching_rule.eval(job=job, deployment=target.deployment.name, service=target.service)"
+_ANY = f"any(({_EVAL} for matching_rule in self.matching_rules))"
+_KEEP_LOOP = f"    for target in targets:\n        if {_ANY}:\n            filtered_targets.append(target)"
+_APPLY = "        targets = await f.get_targets(job, targets)"
 _IMPORT_RANDOM = "import random"
 
 VARIANTS = [
@@ -648,9 +731,16 @@ VARIANTS = [
       append="class DedupBindingFilter(BindingFilter):\n    async def get_targets(self, job, targets):\n        return list(set(targets))\n"),
     V("matching filter iterates sorted(targets, key=id)", MFILE, f"{MBF}.get_targets", "for target in targets:", "for target in sorted(targets, key=id):", "R1"),
     V("matching filter iterates reversed(targets)", MFILE, f"{MBF}.get_targets", "for target in targets:", "for target in reversed(targets):", "R1"),
-    V("matching filter shuffles its input", MFILE, f"{MBF}.get_targets", "filtered_targets = set()", "filtered_targets = set()\n    random.shuffle(targets)", "R1", append=_IMPORT_RANDOM),
+    V("matching filter shuffles its input", MFILE, f"{MBF}.get_targets", "filtered_targets = []", "filtered_targets = []\n    random.shuffle(targets)", "R1", append=_IMPORT_RANDOM),
     V("new sibling filter is rule-major", MFILE, None, None, None, "R1",
       append="class RuleMajorFilter(MatchingBindingFilter):\n    async def get_targets(self, job, targets):\n        out = []\n        for r in self.matching_rules:\n            for t in targets:\n                if r.eval(job, t.deployment.name, t.service):\n                    out.append(t)\n        return out\n"),
+    V("matching filter collects into a set again", MFILE, f"{MBF}.get_targets", "filtered_targets = []\n", "filtered_targets = set()\n", "R1"),
+    V("matching filter rewritten rule-major with de-duplication (seeded change 2)", MFILE, f"{MBF}.get_targets", _KEEP_LOOP,
+      f"    for matching_rule in self.matching_rules:\n        for target in targets:\n            if target not in filtered_targets and {_EVAL}:\n"
+      "                filtered_targets.append(target)", "R1"),
+    V("rule-major rewrite with the evaluation in a temporary (R3 cannot interpret it: must still be reported)", MFILE, f"{MBF}.get_targets", _KEEP_LOOP,
+      f"    for matching_rule in self.matching_rules:\n        for target in targets:\n            hit = {_EVAL}\n"
+      "            if hit and target not in filtered_targets:\n                filtered_targets.append(target)", "R1"),
     # ---- R2
     V("tasks created over reversed(targets)", SFILE, f"{SCHED}.schedule", _TASKS, "for target in reversed(targets)]", "R2", control=True),
     V("tasks created over a set", SFILE, f"{SCHED}.schedule", _TASKS, "for target in set(targets)]", "R2"),
@@ -661,6 +751,12 @@ VARIANTS = [
     V("only the first filter applied", SFILE, f"{SCHED}.schedule", "for f in binding_config.filters)", "for f in binding_config.filters[:1])", "R2"),
     V("every task gets the first target", SFILE, f"{SCHED}.schedule", "target=target,", "target=targets[0],", "R2"),
     V("initial list is sorted", SFILE, f"{SCHED}.schedule", "targets = list(binding_config.targets)", "targets = sorted(binding_config.targets, key=str)", "R2"),
+    V("filter chain left early when one target remains (seeded change 3)", SFILE, f"{SCHED}.schedule", _APPLY,
+      "        if len(targets) < 2:\n            break\n" + _APPLY, "R2"),
+    V("filter skipped when one target remains", SFILE, f"{SCHED}.schedule", _APPLY,
+      "        if len(targets) < 2:\n            continue\n" + _APPLY, "R2"),
+    V("filter applied only while several targets remain", SFILE, f"{SCHED}.schedule", _APPLY,
+      "        if len(targets) > 1:\n    " + _APPLY, "R2"),
     # ---- R3
     V("any -> all over rules", MFILE, f"{MBF}.get_targets", "if any((matching_rule.eval(", "if all((matching_rule.eval(", "R3", control=True),
     V("predicate loop returns True early", MFILE, f"{RULE}.eval", "            return False\n    return True", "            return False\n        return True\n    return True", "R3"),
@@ -672,7 +768,9 @@ VARIANTS = [
     V("value not cast to str", MFILE, f"{RULE}.eval", "if match != str(job.inputs[input_name].value):", "if match != job.inputs[input_name].value:", "R3"),
     V("service not passed to eval", MFILE, f"{MBF}.get_targets", "service=target.service", "service=None", "R3"),
     V("empty result tolerated", MFILE, f"{MBF}.get_targets", "if len(filtered_targets) == 0:", "if len(filtered_targets) < 0:", "R3"),
-    V("non-matching targets kept too", MFILE, f"{MBF}.get_targets", "            filtered_targets.add(target)", "            pass\n        filtered_targets.add(target)", "R3"),
+    V("non-matching targets kept too", MFILE, f"{MBF}.get_targets", "            filtered_targets.append(target)", "            pass\n        filtered_targets.append(target)", "R3"),
+    V("keeping a target also depends on another condition", MFILE, f"{MBF}.get_targets", f"if {_ANY}:", f"if target.service is not None and {_ANY}:", "R3"),
+    V("targets without service kept without a matching rule", MFILE, f"{MBF}.get_targets", f"if {_ANY}:", f"if {_ANY} or target.service is None:", "R3"),
     # ---- R4
     V("await before queueing on the scheduler lock", SFILE, f"{SCHED}._process_target", "deployment = target.deployment.name",
       "deployment = target.deployment.name\n    await asyncio.sleep(0)", "R4", control=True),
@@ -683,6 +781,11 @@ VARIANTS = [
     V("binding filters sorted", UFILE, GBC, "for c in config.get('filters')]", "for c in sorted(config.get('filters'), key=str)]", "R5"),
     # ---- benign
     V("rename accumulator", MFILE, f"{MBF}.get_targets", "filtered_targets", "kept", None, count=4),
+    V("de-duplicating guard, still target-major", MFILE, f"{MBF}.get_targets", f"if {_ANY}:", f"if target not in filtered_targets and {_ANY}:", None),
+    V("explicit rule loop with break, still target-major", MFILE, f"{MBF}.get_targets", _KEEP_LOOP,
+      f"    for target in targets:\n        for matching_rule in self.matching_rules:\n            if {_EVAL}:\n"
+      "                filtered_targets.append(target)\n                break", None),
+    V("filter bound to a local before it is applied", SFILE, f"{SCHED}.schedule", _APPLY, "        flt = f\n        targets = await flt.get_targets(job, targets)", None),
     V("temporary for the filter result", SFILE, f"{SCHED}.schedule", "targets = await f.get_targets(job, targets)", "res = await f.get_targets(job, targets)\n        targets = res", None),
     V("reorder independent statements", SFILE, f"{SCHED}.schedule", "job_context = JobContext(job)\n    targets = list(binding_config.targets)", "targets = list(binding_config.targets)\n    job_context = JobContext(job)", None),
     V("tasks built from a temporary", SFILE, f"{SCHED}.schedule", _TASKS, "for target in list(targets)]", None),
